@@ -288,6 +288,9 @@ func (em *emitter) emitNodes(nodes []ast.Node) {
 			em.breakable = true
 			em.breakLabel = nil
 			em.emitSelect(node)
+			if em.breakLabel != nil {
+				em.fb.setLabelAddr(*em.breakLabel)
+			}
 			em.breakable = currentBreakable
 			em.breakLabel = currentBreakLabel
 
